@@ -41,6 +41,8 @@ func init() {
 			"a waiter of a coalesced dial can leave through its own context and (context provenance) does not receive the dialling subscriber's cancellation; a connection unregisters only itself and an empty connection is closed; " +
 			"the closed flag of an idle connection is flipped atomically with the admission test of subscribe and a refused admission is retried instead of returned. It does not decide message order, idle-period timing or conns→0 over histories.",
 		Mutants: []Mutant{
+			{Name: "an undecodable next payload is a connection error again (reverts part of the F73 fix)", File: "v2/pkg/engine/datasource/graphql_datasource/subscriptionclient/protocol/graphql_transport_ws.go", Rule: "C18-R14", Key: "graphqlTransportWS.decode/addressed-fault-stays-with-its-subscription",
+				Old: "\t\t\t\tif raw.ID == \"\" {\n\t\t\t\t\treturn nil, fmt.Errorf(\"unmarshal next payload: %w\", err)\n\t\t\t\t}\n", New: "\t\t\t\tif raw.ID != \"\\x00\" {\n\t\t\t\t\treturn nil, fmt.Errorf(\"unmarshal next payload: %w\", err)\n\t\t\t\t}\n"},
 			{Name: "waiters re-dial only on context.Canceled again (reverts part of the F53 fix)", File: wsTransportGo, Rule: "C18-R13", Key: "WSTransport.getOrDial/waiter-returns-shared-error-only-after-testing-the-record",
 				Old: "if ctx.Err() == nil && (result.diallerGone || errors.Is(result.err, context.Canceled)) {", New: "if ctx.Err() == nil && errors.Is(result.err, context.Canceled) {"},
 			{Name: "ping stamped after the write returned (reverts the F38 fix)", File: "v2/pkg/engine/datasource/graphql_datasource/subscriptionclient/transport/ws_conn.go", Rule: "C18-R12", Key: "wsConnection.sendPing/ping-stamped-before-write",
@@ -105,6 +107,7 @@ func init() {
 
 func runC18(r *fw.Run) {
 	defer c18SharedWritesUnderConnectionContext(r)
+	defer c18AddressedFaultsStayWithTheirSubscription(r)
 	defer c18WaitersLearnWhetherTheDiallerWasGone(r)
 	defer c18PingStampedBeforeWrite(r)
 	defer c18SubscribeExitsRunIdleCheck(r)
@@ -2067,4 +2070,112 @@ func c18WaitersLearnWhetherTheDiallerWasGone(r *fw.Run) {
 	in.Run(nil)
 	r.Expect("C18-R13", "close(done) of a dial result", nClose, 1)
 	r.Expect("C18-R13", "returns of the shared dial error", nRet, 1)
+}
+
+// c18AddressedFaultsStayWithTheirSubscription (R14): the read loop treats every error of Protocol.Read as the end of the
+// connection and tells all subscriptions on it. A frame that is well-formed and names its subscription — a data message
+// with an id whose payload does not decode — is the fault of that subscription alone; returning an error for it turns one
+// subscription's bad message into the failure of all the others that share the connection (cross-talk). In the decode
+// function of each protocol (the function that maps a raw message to a *WireMessage, with a dispatch over the raw type),
+// inside the arm that builds a data message, an error is returned only where the id of the raw message is known to be
+// empty; otherwise the fault is delivered as that subscription's message.
+func c18AddressedFaultsStayWithTheirSubscription(r *fw.Run) {
+	p := r.Prog
+	r.Rule("C18-R14", "in the protocol decoders an error (which ends the whole connection) is returned from the arm that builds a subscription's data message only where the raw message carries no id; a fault of an addressed message is delivered to its subscription")
+	n := 0
+	for _, fi := range p.Funcs(c18P) {
+		sig := fi.Obj.Type().(*types.Signature)
+		if sig.Results().Len() != 2 || sig.Params().Len() != 1 {
+			continue
+		}
+		if pt, ok := sig.Results().At(0).Type().(*types.Pointer); !ok || !fw.TypeIs(pt.Elem(), c18P, "WireMessage") {
+			continue
+		}
+		info := fi.Info()
+		raw := sig.Params().At(0)
+		isRawID := func(e ast.Expr) bool {
+			sel, ok := ast.Unparen(e).(*ast.SelectorExpr)
+			if !ok || sel.Sel.Name != "ID" {
+				return false
+			}
+			id, isID := ast.Unparen(sel.X).(*ast.Ident)
+			return isID && info.Uses[id] == raw
+		}
+		fw.WalkAll(fi.Decl.Body, func(nd ast.Node) bool {
+			cc, ok := nd.(*ast.CaseClause)
+			if !ok {
+				return true
+			}
+			// the arm of a data message: assigns <msg>.Type = MessageData
+			data := false
+			for _, st := range cc.Body {
+				fw.WalkAll(st, func(m ast.Node) bool {
+					if as, isAs := m.(*ast.AssignStmt); isAs && len(as.Lhs) == 1 && len(as.Rhs) == 1 && fw.IsFieldSel(info, as.Lhs[0], c18P, "WireMessage", "Type") {
+						if k := fw.ConstObj(info, as.Rhs[0]); k != nil && k.Name() == "MessageData" {
+							data = true
+						}
+					}
+					return true
+				})
+			}
+			if !data {
+				return true
+			}
+			var stack []ast.Node
+			for _, st := range cc.Body {
+				ast.Inspect(st, func(m ast.Node) bool {
+					if m == nil {
+						stack = stack[:len(stack)-1]
+						return true
+					}
+					stack = append(stack, m)
+					ret, isRet := m.(*ast.ReturnStmt)
+					if !isRet || len(ret.Results) != 2 {
+						return true
+					}
+					if id, isID := ast.Unparen(ret.Results[1]).(*ast.Ident); isID && info.Uses[id] == types.Universe.Lookup("nil") {
+						return true
+					}
+					n++
+					noID := false
+					for _, anc := range stack {
+						is, isIf := anc.(*ast.IfStmt)
+						if !isIf {
+							continue
+						}
+						// the return sits in the then-branch of an if that establishes an empty id
+						inThen := false
+						ast.Inspect(is.Body, func(q ast.Node) bool {
+							if q == ast.Node(ret) {
+								inThen = true
+							}
+							return true
+						})
+						if !inThen {
+							continue
+						}
+						op, leaves := fw.NNF(info, is.Cond, true)
+						if op != "atom" && op != "and" {
+							continue
+						}
+						for _, a := range leaves {
+							if a.Kind == "Empty" && isRawID(a.X) {
+								noID = true
+							}
+							if a.Kind == "Eq" && isRawID(a.X) {
+								if v, isConst := fw.ConstVal(info, a.Y); isConst && strings.Trim(v, "\"") == "" {
+									noID = true
+								}
+							}
+						}
+					}
+					r.Check(noID, "C18-R14", fi.Name()+"/addressed-fault-stays-with-its-subscription", p.Pos(ret.Pos()), "the error returned from the data arm of "+fi.Name()+" is returned only for a message without an id",
+						fi.Name()+" returns an error for a data message that names its subscription (a payload that does not decode): the read loop ends the connection for every error of Read, so every other subscription that shares the connection is terminated because of a message addressed to one of them")
+					return true
+				})
+			}
+			return true
+		})
+	}
+	r.Expect("C18-R14", "error returns in the data arms of the protocol decoders", n, 2)
 }
